@@ -317,3 +317,30 @@ def oracle(c, obs):
 
 def classify(c, obs, why):
     return None
+
+
+def run(res, a):
+    import json, os, sys
+    mod = sys.modules[__name__]
+    res.rule = RULE + ("; additionally (implementation side): every characteristic with a declared range inside the accessories the 11 accessory "
+                       "constructors return (several argument sets) is given values far beyond both bounds")
+    res.assumptions = list(ASSUMPTIONS)
+    core.build_everything(res, ID, extra_files=EXTRA_FILES)
+    if a.replay:
+        rep = json.load(open(a.replay))
+        if rep["case"] != "accessories":
+            core.run_correspondence(res, FAMILY, [{"id": "replay", "line": rep["case"], "kind": "replay"}], mod)
+            return
+    else:
+        core.run_correspondence(res, FAMILY, core.load_corpus(FAMILY) + gen(core.rng_for(ID, res.seed), a.tier), mod)
+    # the declared range must be in force on the objects applications actually get: the accessory constructors narrow ranges
+    # after the characteristic constructors ran
+    o = core.shard_run(os.path.join(core.BUILD, "hcdrv"), "catalog", ["acc accessories"]).get("acc", "NO-OUTPUT")
+    res.cases += 1
+    res.count("kind:accessory-constructors")
+    bad = [t for t in o.split(" ") if "!unclamped" in t]
+    if bad or o in ("NO-OUTPUT", "panic"):
+        res.violations.append(("accessories", {"property": ID, "family": "catalog", "seed": res.seed, "case": "accessories", "implementation_observed": (bad[0] if bad else o)[:300],
+                                               "required": "a characteristic inside a constructed accessory stores a value outside its declared range: " + (bad[0].split(":")[0] + " " + bad[0].split(",")[-1] if bad else o)[:200].replace("_", " "),
+                                               "failing_input_found": True, "replay": "python3 tools/check.py C12 --replay <this file>"}))
+    res.obligations.append(("implementation-side run: ranges in force inside the constructed accessories", not bad, "%d accessories" % len(o.split(" "))))
